@@ -137,8 +137,8 @@ package core
 // v3 resource/DA word: fee mode in the low 32 bits, nonce mode in the next 32.
 //@ func dataAvailabilityMode
 //@   props C02
-//@   arith int
-//@   ensures packed: result == feeDAMode + nonceDAMode * 4294967296
+//@   arith bv
+//@   ensures packed: result == uint64(feeDAMode) + (uint64(nonceDAMode) << 32)
 
 //@ ghost func versionIs(v TransactionVersion, n uint64) bool
 //@ func (*TransactionVersion).Is
